@@ -5,6 +5,7 @@ import (
 	"go/ast"
 	"go/token"
 	"go/types"
+	"strings"
 
 	"golang.org/x/tools/go/ast/astutil"
 	"golang.org/x/tools/go/ssa"
@@ -31,6 +32,69 @@ func (p *Prog) exprText(pos token.Pos) string {
 		}
 	}
 	return "?"
+}
+
+// exprShape is exprText with every local variable / parameter replaced by its type, and a dereference of a
+// pointer-to-scalar folded into the scalar: renaming a local or passing a value instead of a pointer does
+// not change the shape, while a different field, operator or operand type does.
+func (p *Prog) exprShape(pos token.Pos) string {
+	for _, pk := range p.Pkgs {
+		for _, file := range pk.Syntax {
+			if file.Pos() <= pos && pos < file.End() {
+				path, _ := astutil.PathEnclosingInterval(file, pos, pos)
+				for _, n := range path {
+					if be, ok := n.(*ast.BinaryExpr); ok && be.OpPos == pos {
+						return shapeOf(pk.TypesInfo, be.X) + " " + be.Op.String() + " " + shapeOf(pk.TypesInfo, be.Y)
+					}
+					if id, ok := n.(*ast.IncDecStmt); ok {
+						return shapeOf(pk.TypesInfo, id.X) + id.Tok.String()
+					}
+					if as, ok := n.(*ast.AssignStmt); ok && as.TokPos == pos {
+						return shapeOf(pk.TypesInfo, as.Lhs[0]) + as.Tok.String() + shapeOf(pk.TypesInfo, as.Rhs[0])
+					}
+				}
+			}
+		}
+	}
+	return "?"
+}
+
+func shapeOf(info *types.Info, e ast.Expr) string {
+	short := func(t types.Type) string {
+		return types.TypeString(t, func(*types.Package) string { return "" })
+	}
+	switch x := e.(type) {
+	case *ast.Ident:
+		if obj, ok := info.Uses[x].(*types.Var); ok && !obj.IsField() && obj.Parent() != nil && obj.Parent() != obj.Pkg().Scope() {
+			return "<" + short(obj.Type()) + ">"
+		}
+		return x.Name
+	case *ast.ParenExpr:
+		return "(" + shapeOf(info, x.X) + ")"
+	case *ast.StarExpr:
+		in := shapeOf(info, x.X)
+		if strings.HasPrefix(in, "<*") {
+			return "<" + in[2:]
+		}
+		return "*" + in
+	case *ast.SelectorExpr:
+		return shapeOf(info, x.X) + "." + x.Sel.Name
+	case *ast.IndexExpr:
+		return shapeOf(info, x.X) + "[" + shapeOf(info, x.Index) + "]"
+	case *ast.CallExpr:
+		var as []string
+		for _, a := range x.Args {
+			as = append(as, shapeOf(info, a))
+		}
+		return shapeOf(info, x.Fun) + "(" + strings.Join(as, ", ") + ")"
+	case *ast.BinaryExpr:
+		return shapeOf(info, x.X) + " " + x.Op.String() + " " + shapeOf(info, x.Y)
+	case *ast.UnaryExpr:
+		return x.Op.String() + shapeOf(info, x.X)
+	case *ast.BasicLit:
+		return x.Value
+	}
+	return types.ExprString(e)
 }
 
 func init() {
@@ -71,7 +135,7 @@ func (p *Prog) allNarrow16() []string {
 		for _, b := range f.Blocks {
 			for _, ins := range b.Instrs {
 				if bo, ok := ins.(*ssa.BinOp); ok && (bo.Op == token.ADD || bo.Op == token.SUB) && intWidth(basicKind(bo.Type())) == 16 {
-					out = append(out, fmt.Sprintf("%s|%s @%s", fname(f), p.exprText(bo.Pos()), p.ipos(bo)))
+					out = append(out, fmt.Sprintf("%s|%s  =>  %s @%s", fname(f), p.exprText(bo.Pos()), p.exprShape(bo.Pos()), p.ipos(bo)))
 				}
 			}
 		}
@@ -103,24 +167,25 @@ func (p *Prog) narrowArith() []narrowSite {
 	return out
 }
 
-// Sites confirmed by reading where the 16-bit result cannot wrap, keyed by function and source
-// expression, one line of reason each. Anything else is reported.
+// Sites confirmed by reading where the 16-bit result cannot wrap, keyed by function and expression shape
+// (exprShape: locals and parameters appear as their types, so renaming them or passing a value instead of
+// a pointer keeps the key), one line of reason each. Anything else is reported.
 var narrowArithAllowed = map[string]string{
-	"(*roaring.Bitmap).NextAbsentValue|containerKey + 1":                                  "guarded by containerKey < nextContainerKey, so containerKey <= 65534",
-	"(*roaring.arrayContainer).nextAbsentValue|result.value + 1":                          "only when result.index == cardinality-2, so result.value < maximum <= 65535",
-	"(*roaring.arrayContainer).nextAbsentValue|ac.content[midIndex] - target":             "midIndex > result.index and content is sorted, so content[midIndex] >= target",
-	"(*roaring.arrayContainer).nextAbsentValue|ac.content[low] + 1":                       "low < cardinality-1 on this path, so content[low] < maximum <= 65535",
-	"(*roaring.arrayContainer).previousAbsentValue|result.value - 1":                      "result.index == 1, so result.value > minimum >= 0",
-	"(*roaring.arrayContainer).previousAbsentValue|target - ac.content[midIndex]":         "midIndex < result.index and content is sorted, so content[midIndex] <= target",
-	"(*roaring.arrayContainer).previousAbsentValue|ac.content[high] - 1":                  "high >= 1 on this path, so content[high] > minimum >= 0",
-	"(*roaring.bitmapContainer).resetTo|r.start + r.length":                               "interval invariant start+length <= 65535 (checked by validate for decoded data)",
-	"(*roaring.runContainer16).deleteAt|rc.iv[ci].start + *curPosInIndex":                 "cursor position lies inside the interval: start+pos <= last <= 65535",
-	"(*roaring.runContainer16).invert|cur.last() + 1":                                     "cur is not the last interval, so cur.last() < next.start <= 65535",
-	"(*roaring.runContainer16).rank|x - rc.iv[w].start":                                   "x lies inside interval w on this path (already == true)",
-	"(*roaring.runIterator16).nextMany|ri.rc.iv[ri.curIndex].length - ri.curPosInIndex":   "guarded by length >= curPosInIndex",
-	"(*roaring.runIterator16).nextMany|ri.rc.iv[ri.curIndex].start + ri.curPosInIndex":    "cursor position lies inside the interval",
-	"(*roaring.runIterator16).nextMany64|ri.rc.iv[ri.curIndex].length - ri.curPosInIndex": "guarded by length >= curPosInIndex",
-	"(*roaring.runIterator16).nextMany64|ri.rc.iv[ri.curIndex].start + ri.curPosInIndex":  "cursor position lies inside the interval",
+	"(*roaring.Bitmap).NextAbsentValue|<uint16> + 1":                                                                                "guarded by containerKey < nextContainerKey, so containerKey <= 65534",
+	"(*roaring.arrayContainer).nextAbsentValue|<searchResult>.value + 1":                                                            "only when result.index == cardinality-2, so result.value < maximum <= 65535",
+	"(*roaring.arrayContainer).nextAbsentValue|<*arrayContainer>.content[<int>] - <uint16>":                                         "midIndex > result.index and content is sorted, so content[midIndex] >= target",
+	"(*roaring.arrayContainer).nextAbsentValue|<*arrayContainer>.content[<int>] + 1":                                                "low < cardinality-1 on this path, so content[low] < maximum <= 65535",
+	"(*roaring.arrayContainer).previousAbsentValue|<searchResult>.value - 1":                                                        "result.index == 1, so result.value > minimum >= 0",
+	"(*roaring.arrayContainer).previousAbsentValue|<uint16> - <*arrayContainer>.content[<int>]":                                     "midIndex < result.index and content is sorted, so content[midIndex] <= target",
+	"(*roaring.arrayContainer).previousAbsentValue|<*arrayContainer>.content[<int>] - 1":                                            "high >= 1 on this path, so content[high] > minimum >= 0",
+	"(*roaring.bitmapContainer).resetTo|<interval16>.start + <interval16>.length":                                                   "interval invariant start+length <= 65535 (checked by validate for decoded data)",
+	"(*roaring.runContainer16).deleteAt|<*runContainer16>.iv[<int>].start + <uint16>":                                               "cursor position lies inside the interval: start+pos <= last <= 65535",
+	"(*roaring.runContainer16).invert|<interval16>.last() + 1":                                                                      "cur is not the last interval, so cur.last() < next.start <= 65535",
+	"(*roaring.runContainer16).rank|<uint16> - <*runContainer16>.iv[<int>].start":                                                   "x lies inside interval w on this path (already == true)",
+	"(*roaring.runIterator16).nextMany|<*runIterator16>.rc.iv[<*runIterator16>.curIndex].length - <*runIterator16>.curPosInIndex":   "guarded by length >= curPosInIndex",
+	"(*roaring.runIterator16).nextMany|<*runIterator16>.rc.iv[<*runIterator16>.curIndex].start + <*runIterator16>.curPosInIndex":    "cursor position lies inside the interval",
+	"(*roaring.runIterator16).nextMany64|<*runIterator16>.rc.iv[<*runIterator16>.curIndex].length - <*runIterator16>.curPosInIndex": "guarded by length >= curPosInIndex",
+	"(*roaring.runIterator16).nextMany64|<*runIterator16>.rc.iv[<*runIterator16>.curIndex].start + <*runIterator16>.curPosInIndex":  "cursor position lies inside the interval",
 }
 
 // Functions in which no 16-bit addition/subtraction may occur at all (whether or not it is widened
@@ -138,17 +203,33 @@ var narrowScope = []string{
 }
 
 var narrowScopeAllowed = map[string]string{
-	"(*roaring.Bitmap).NextAbsentValue|containerKey + 1":                          "guarded by containerKey < nextContainerKey",
-	"(*roaring.Bitmap).PreviousAbsentValue|containerKey - 1":                      "containerIndex > 0 on this path and keys are strictly increasing, so containerKey >= 1",
-	"(*roaring.arrayContainer).nextAbsentValue|result.value + 1":                  "only when result.index == cardinality-2, so result.value < maximum",
-	"(*roaring.arrayContainer).nextAbsentValue|ac.content[midIndex] - target":     "content[midIndex] >= target (sorted, midIndex > result.index)",
-	"(*roaring.arrayContainer).nextAbsentValue|ac.content[low] + 1":               "low < cardinality-1, so content[low] < maximum",
-	"(*roaring.arrayContainer).previousAbsentValue|result.value - 1":              "result.index == 1, so result.value > minimum",
-	"(*roaring.arrayContainer).previousAbsentValue|target - ac.content[midIndex]": "content[midIndex] <= target",
-	"(*roaring.arrayContainer).previousAbsentValue|ac.content[high] - 1":          "high >= 1, so content[high] > minimum",
-	"(*roaring.bitmapContainer).nextAbsentValue|x++":                              "x is a word index (< 1024)",
-	"(*roaring.bitmapContainer).previousAbsentValue|x++":                          "x is a word index (< 1024)",
-	"(*roaring.unsetIterator).Next|iui.emptyContainerVal++":                       "the wrap to 0 is the intended end-of-chunk test on the next line",
+	"(*roaring.Bitmap).NextAbsentValue|<uint16> + 1":                                            "guarded by containerKey < nextContainerKey",
+	"(*roaring.Bitmap).PreviousAbsentValue|<uint16> - 1":                                        "containerIndex > 0 on this path and keys are strictly increasing, so containerKey >= 1",
+	"(*roaring.arrayContainer).nextAbsentValue|<searchResult>.value + 1":                        "only when result.index == cardinality-2, so result.value < maximum",
+	"(*roaring.arrayContainer).nextAbsentValue|<*arrayContainer>.content[<int>] - <uint16>":     "content[midIndex] >= target (sorted, midIndex > result.index)",
+	"(*roaring.arrayContainer).nextAbsentValue|<*arrayContainer>.content[<int>] + 1":            "low < cardinality-1, so content[low] < maximum",
+	"(*roaring.arrayContainer).previousAbsentValue|<searchResult>.value - 1":                    "result.index == 1, so result.value > minimum",
+	"(*roaring.arrayContainer).previousAbsentValue|<uint16> - <*arrayContainer>.content[<int>]": "content[midIndex] <= target",
+	"(*roaring.arrayContainer).previousAbsentValue|<*arrayContainer>.content[<int>] - 1":        "high >= 1, so content[high] > minimum",
+	"(*roaring.bitmapContainer).nextAbsentValue|<uint16>++":                                     "x is a word index (< 1024)",
+	"(*roaring.bitmapContainer).previousAbsentValue|<uint16>++":                                 "x is a word index (< 1024)",
+	"(*roaring.unsetIterator).Next|<*unsetIterator>.emptyContainerVal++":                        "the wrap to 0 is the intended end-of-chunk test on the next line",
+}
+
+// The shape key abstracts from variable names, so it could cover a second, untriaged expression of the same
+// shape in the same function: each key stands for exactly as many sites as were read (1 unless listed).
+var narrowAllowedSites = map[string]int{
+	"scope:(*roaring.arrayContainer).nextAbsentValue|<searchResult>.value + 1":     2, // the comparison and the return inside the same guard
+	"scope:(*roaring.arrayContainer).previousAbsentValue|<searchResult>.value - 1": 2, // idem
+	"scope:(*roaring.bitmapContainer).nextAbsentValue|<uint16>++":                  2, // statement before the loop and the loop's post statement
+	"scope:(*roaring.bitmapContainer).previousAbsentValue|<uint16>++":              2, // idem
+}
+
+func allowedCount(key string) int {
+	if n, ok := narrowAllowedSites[key]; ok {
+		return n
+	}
+	return 1
 }
 
 func inNarrowScope(f *ssa.Function) bool {
@@ -189,6 +270,8 @@ func ruleU1(p *Prog) *RuleResult {
 		res.ok(k, "-", fmt.Sprintf("%d widen-then-add site(s)", c))
 	}
 	// clause 2: no 16-bit add/sub at all inside the scoped functions
+	scopeSeen := map[string]int{}
+	arithSeen := map[string]int{}
 	resolved := 0
 	seenScope := map[string]bool{}
 	for _, f := range p.sourceFns() {
@@ -209,9 +292,12 @@ func ruleU1(p *Prog) *RuleResult {
 				if !ok || (bo.Op != token.ADD && bo.Op != token.SUB) || intWidth(basicKind(bo.Type())) != 16 {
 					continue
 				}
-				c := fmt.Sprintf("%s|%s", fname(f), p.exprText(bo.Pos()))
-				if why, ok := narrowScopeAllowed[c]; ok {
-					res.ok("scope:"+c, p.ipos(bo), "allowed: "+why)
+				c := fmt.Sprintf("%s|%s", fname(f), p.exprShape(bo.Pos()))
+				scopeSeen[c]++
+				if why, ok := narrowScopeAllowed[c]; ok && scopeSeen[c] <= allowedCount("scope:"+c) {
+					res.ok(fmt.Sprintf("scope:%s#%d", c, scopeSeen[c]), p.ipos(bo), "allowed: "+why)
+				} else if ok {
+					res.bad(fmt.Sprintf("scope:%s#%d", c, scopeSeen[c]), p.ipos(bo), fmt.Sprintf("one more 16-bit %s of the allow-listed shape than the %d site(s) that were triaged: read it and extend the table if it cannot wrap", bo.Op, allowedCount("scope:"+c)))
 				} else {
 					res.bad("scope:"+c, p.ipos(bo), fmt.Sprintf("16-bit %s inside a function whose operands range over the whole chunk/key space: the result wraps at 65535/0", bo.Op))
 				}
@@ -222,9 +308,14 @@ func ruleU1(p *Prog) *RuleResult {
 		res.undecided("scope", "-", fmt.Sprintf("only %d of the %d scoped functions were found", resolved, len(narrowScope)))
 	}
 	for _, s := range p.narrowArith() {
-		c := fmt.Sprintf("%s|%s", fname(s.f), p.exprText(s.op.Pos()))
+		c := fmt.Sprintf("%s|%s", fname(s.f), p.exprShape(s.op.Pos()))
+		arithSeen[c]++
 		if why, ok := narrowArithAllowed[c]; ok {
-			res.ok(c, p.ipos(s.conv), "allowed: "+why)
+			if arithSeen[c] <= allowedCount(c) {
+				res.ok(fmt.Sprintf("%s#%d", c, arithSeen[c]), p.ipos(s.conv), "allowed: "+why)
+			} else {
+				res.bad(fmt.Sprintf("%s#%d", c, arithSeen[c]), p.ipos(s.conv), fmt.Sprintf("one more widened 16-bit %s of the allow-listed shape than the %d site(s) that were triaged", s.op.Op, allowedCount(c)))
+			}
 			continue
 		}
 		res.bad(c, p.ipos(s.conv), fmt.Sprintf("%s is computed in 16 bits and widened to %s afterwards: the result wraps at the chunk edge", s.op.Op, s.conv.Type()))
